@@ -1,4 +1,6 @@
 import OrsoVerif.Lemmas.Frame
+import OrsoVerif.Lemmas.FrameProg
+import OrsoVerif.Generated.FrameFns
 /-!
 # C03 — DataFrame operators agree with a list-of-tuples model
 
@@ -130,7 +132,7 @@ theorem filter_spec (rows : List α) (mask : List Bool) :
 
 /-- `take(indexes)` keeps row `i` iff `i ∈ indexes`. -/
 theorem take_spec (rows : List α) (idxs : List Int) :
-    take rows idxs = pick (fun i => decide ((i : Int) ∈ idxs)) rows := rfl
+    take rows idxs = pick (fun i => decide ((i : Int) ∈ idxs)) rows := take_eq rows idxs
 
 /-- `query(p)` keeps row `i` iff `p rows[i]`. -/
 theorem query_spec (rows : List α) (p : α → Bool) :
@@ -148,7 +150,7 @@ theorem select_spec (names : List String) (rows : List (List α)) (attrs : List 
           ∧ r'.length = (select names rows attrs).1.length
           ∧ ∀ (j : Nat) (a : String), (select names rows attrs).1[j]? = some a →
               ∃ i, indexOf names a = some i ∧ names[i]? = some a ∧ r'[j]? = r[i]? := by
-  refine ⟨rfl, by simp [select], ?_⟩
+  refine ⟨selectHeader_eq names attrs, by simp [select], ?_⟩
   intro k r hk
   have hr : r ∈ rows := List.mem_of_getElem? hk
   have hlen := hw r hr
@@ -156,13 +158,13 @@ theorem select_spec (names : List String) (rows : List (List α)) (attrs : List 
   all_goals
     have key : project (selectIdx names attrs) r
         = (selectHeader names attrs).filterMap (fun a => (indexOf names a).bind (r[·]?)) := by
-      simp only [project, selectIdx, List.filterMap_filterMap]
+      rw [project_eq, selectIdx_eq, List.filterMap_filterMap]
   · rw [key]
     simp only [select]
     have : ∀ a ∈ selectHeader names attrs, ∃ v, (indexOf names a).bind (r[·]?) = some v := by
       intro a ha
       have hmem : a ∈ names := by
-        simp only [selectHeader, List.mem_filter, decide_eq_true_eq] at ha; exact ha.2
+        rw [selectHeader_eq] at ha; simp only [List.mem_filter, decide_eq_true_eq] at ha; exact ha.2
       obtain ⟨i, h1, _, _⟩ := indexOf_some_of_mem names a hmem
       have hi := indexOf_lt names a i h1
       refine ⟨r[i]'(by omega), ?_⟩
@@ -177,7 +179,7 @@ theorem select_spec (names : List String) (rows : List (List α)) (attrs : List 
   · intro j a hj
     have ha : a ∈ selectHeader names attrs := List.mem_of_getElem? hj
     have hmem : a ∈ names := by
-      simp only [selectHeader, List.mem_filter, decide_eq_true_eq] at ha; exact ha.2
+      rw [selectHeader_eq] at ha; simp only [List.mem_filter, decide_eq_true_eq] at ha; exact ha.2
     obtain ⟨i, h1, h2, _⟩ := indexOf_some_of_mem names a hmem
     refine ⟨i, h1, h2, ?_⟩
     rw [key]
@@ -185,7 +187,7 @@ theorem select_spec (names : List String) (rows : List (List α)) (attrs : List 
     have hall : ∀ b ∈ selectHeader names attrs, ∃ v, (indexOf names b).bind (r[·]?) = some v := by
       intro b hb
       have hbm : b ∈ names := by
-        simp only [selectHeader, List.mem_filter, decide_eq_true_eq] at hb; exact hb.2
+        rw [selectHeader_eq] at hb; simp only [List.mem_filter, decide_eq_true_eq] at hb; exact hb.2
       obtain ⟨i', h1', _, _⟩ := indexOf_some_of_mem names b hbm
       have hi' := indexOf_lt names b i' h1'
       exact ⟨r[i']'(by omega), by simp [h1', List.getElem?_eq_getElem (show i' < r.length by omega)]⟩
@@ -224,8 +226,8 @@ theorem batches_spec (rows : List α) (size : Nat) (hs : 0 < size) :
     (batches rows size).flatten = rows
     ∧ ∀ i, (batches rows size)[i]? =
         if i * size < rows.length then some ((rows.drop (i * size)).take size) else none :=
-  ⟨batchesAux_flatten size hs _ rows (Nat.le_refl _),
-   fun i => batchesAux_get size hs _ rows (Nat.le_refl _) i⟩
+  ⟨by rw [batches_eq_chunks rows size hs]; exact batchesAux_flatten size hs _ rows (Nat.le_refl _),
+   fun i => batches_get rows size hs i⟩
 
 /-- Every batch but the last is full and no batch is empty. -/
 theorem batches_sizes (rows : List α) (size : Nat) (hs : 0 < size) (i : Nat) (b : List α)
@@ -261,10 +263,10 @@ theorem limitRows_spec (n : Nat) :
     limitRows n none = n
     ∧ (∀ l : Int, l < 0 → limitRows n (some l) = n)
     ∧ (∀ l : Int, 0 ≤ l → limitRows n (some l) = min l.toNat n) := by
-  refine ⟨rfl, ?_, ?_⟩
-  · intro l h; simp [limitRows, h]
+  refine ⟨by rw [limitRows_eq], ?_, ?_⟩
+  · intro l h; rw [limitRows_eq]; simp [h]
   · intro l h; have : ¬ l < 0 := by omega
-    simp [limitRows, this]
+    rw [limitRows_eq]; simp [this]
 
 /-- Every row-selecting operator returns rows of the source (so rectangularity and cell values
 are preserved by any composition of them). -/
@@ -289,6 +291,437 @@ theorem rows_preserved [DecidableEq α] (rows : List α) :
     exact (List.mem_filter.mp hr).1
   · intro r hr
     exact (distinctAux_sublist [] rows).subset hr
+
+
+/-! ## Round 2 — the generated code equals the model
+
+`Gen.FrameFns.*` are the bodies of `DataFrame.slice/head/tail/to_batches` translated statement by
+statement from the working tree (harness/pystmt.py); `Gen.Frame.select*`, `schemaIter`, `takeTest`,
+`collect*` are the comprehensions / tests lifted by harness/extractors/c03.py.  A change of the
+source that changes their meaning breaks the theorem named here. -/
+
+theorem generated_slice_eq_model (rows : List α) (offset : Int) (length : Option Nat) :
+    Gen.FrameFns.slice rows offset (length.map Int.ofNat) = slice rows offset length := by
+  unfold Gen.FrameFns.slice slice sliceOffset Gen.Frame.sliceNegTest Gen.Frame.sliceNegStart
+    Gen.Frame.sliceZeroTest Gen.Frame.sliceStop
+  cases length with
+  | none => by_cases h : offset < 0 <;> simp [h]
+  | some l => by_cases h : offset < 0 <;> simp [h]
+
+theorem generated_head_eq_model (rows : List α) (k : Nat) :
+    Gen.FrameFns.head rows (k : Int) = head rows k := by
+  have := generated_slice_eq_model rows 0 (some k)
+  simp only [Option.map_some, Int.ofNat_eq_natCast] at this
+  unfold Gen.FrameFns.head head Gen.Frame.headOffset Gen.Frame.headLength
+  rw [this]; simp
+
+theorem generated_tail_eq_model (rows : List α) (k : Nat) :
+    Gen.FrameFns.tail rows (k : Int) = tail rows k := by
+  have := generated_slice_eq_model rows (0 - (k : Int)) (some k)
+  simp only [Option.map_some, Int.ofNat_eq_natCast] at this
+  unfold Gen.FrameFns.tail tail Gen.Frame.tailOffset Gen.Frame.tailLength
+  rw [this]; simp
+
+theorem generated_to_batches_eq_model (rows : List α) (size : Nat) :
+    Gen.FrameFns.to_batches rows (size : Int) = batches rows size := rfl
+
+/-- The comprehensions of `DataFrame.select` as the source has them now are: the requested names that
+exist, their first positions, and the cells at these positions. -/
+theorem generated_select_eq_model (names attrs hdr : List String) (idxs : List Nat) (row : List α) :
+    Gen.Frame.selectHeader names attrs = attrs.filter (fun a => decide (a ∈ names))
+    ∧ Gen.Frame.selectIndices names hdr = hdr.filterMap (indexOf names)
+    ∧ Gen.Frame.selectProject idxs row = idxs.filterMap (row[·]?) := by
+  refine ⟨rfl, ?_, rfl⟩
+  unfold Gen.Frame.selectIndices
+  congr 1
+  funext a
+  exact pyIndex_eq names a
+
+/-- `list(self._schema)` is the list of column names for every way the schema can be given: a list,
+a tuple, a `RelationSchema` (the generated `RelationSchema.__iter__`) — aliases never enter. -/
+theorem schema_iter_names (sch : Schema) : sch.iter = sch.names := by
+  unfold Schema.iter Schema.names Gen.Frame.schemaIter
+  cases sch.kind <;> simp [List.map_map, Function.comp_def]
+
+/-- `select` on a frame with any kind of schema: the header is the requested column *names* that
+exist, in the requested order, the result carries a plain list schema, and (by `select_spec`) every
+cell is the source cell at the first position of its name. -/
+theorem select_any_schema [DecidableEq α] (sch : Schema) (rows : List (List α)) (attrs : List String) :
+    apply1 (.select attrs) sch rows
+      = .frame (Schema.ofNames (attrs.filter (fun a => decide (a ∈ sch.names))))
+          (select sch.names rows attrs).2 := by
+  simp only [apply1, selectOp, schema_iter_names, select, selectHeader_eq]
+
+/-- `+` concatenates the listings of two frames that carry the same schema. -/
+theorem add_spec (sch : Schema) (ra rb : List (List α)) :
+    addOp sch ra sch rb = .frame sch (ra ++ rb) := by
+  simp [addOp]
+
+/-- `row(i)` is Python list indexing: `rows[i]` for `0 ≤ i < n`, `rows[n+i]` for `-n ≤ i < 0`,
+`IndexError` otherwise. -/
+theorem row_spec (rows : List (List α)) (i : Int) :
+    (∀ (k : Nat) (r : List α), i = k → rows[k]? = some r → rowOp rows i = .val (.row r))
+    ∧ (∀ (k : Nat) (r : List α), i = -(k : Int) → 0 < k → k ≤ rows.length → rows[rows.length - k]? = some r →
+        rowOp rows i = .val (.row r))
+    ∧ (i ≥ rows.length ∨ i < -(rows.length : Int) → rowOp rows i = .err "IndexError") := by
+  refine ⟨?_, ?_, ?_⟩
+  · intro k r hk hr
+    subst hk
+    have hlt : k < rows.length := by
+      rcases Nat.lt_or_ge k rows.length with h | h
+      · exact h
+      · rw [List.getElem?_eq_none_iff.mpr h] at hr; cases hr
+    have h1 : ¬ ((k : Int) < 0) := by omega
+    have h2 : ¬ (False ∨ (k : Int) ≥ rows.length) := by
+      intro h; rcases h with h | h
+      · exact h
+      · omega
+    simp only [rowOp, h1, if_false, h2, Int.toNat_natCast, hr]
+  · intro k r hk hpos hle hr
+    subst hk
+    have h1 : (-(k : Int) < 0) := by omega
+    have h2 : ¬ ((rows.length : Int) + -(k : Int) < 0 ∨ (rows.length : Int) + -(k : Int) ≥ rows.length) := by omega
+    have e : ((rows.length : Int) + -(k : Int)).toNat = rows.length - k := by omega
+    simp only [rowOp, h1, if_true, h2, if_false, e, hr]
+  · intro h
+    unfold rowOp
+    by_cases h0 : i < 0
+    · have : (rows.length : Int) + i < 0 ∨ (rows.length : Int) + i ≥ rows.length := by omega
+      simp only [h0, if_true, this]
+    · have : False ∨ i ≥ rows.length := Or.inr (by omega)
+      simp only [h0, if_false, this, if_true]
+
+/-- `collect` / indexing on a frame, with the glue of `DataFrame.collect` and `collect_cython` around
+the transpose: names are resolved to their first position (`ValueError` for a name that is not a
+column); an empty frame or an empty column list gives one empty list per column; a position outside
+the row width is an `IndexError`; otherwise the result is the column-major transpose of the first
+`limitRows` rows. -/
+theorem collectOp_spec [Inhabited α] (sch : Schema) (rows : List (List α)) (cols : List ColRef) (limit : Option Int) :
+    (∀ cs, resolveCols sch.names cols = .ok cs → (rows = [] ∨ cs = []) →
+        collectOp sch rows cols limit = .val (.table (cs.map fun _ => [])))
+    ∧ (∀ cs, resolveCols sch.names cols = .ok cs → rows ≠ [] → cs ≠ [] →
+        (∀ r ∈ rows, r.length = sch.cols.length) → (∀ c ∈ cs, 0 ≤ c ∧ c < (sch.cols.length : Int)) →
+        collectOp sch rows cols limit
+          = .val (.table (cs.map fun c => (rows.take (limitRows rows.length limit)).map fun r => r[c.toNat]!)))
+    ∧ (∀ c, resolveCols sch.names cols = .error c → collectOp sch rows cols limit = .err c) := by
+  refine ⟨?_, ?_, ?_⟩
+  · intro cs hres hemp
+    unfold collectOp
+    rw [hres]
+    have : rows.isEmpty = true ∨ cs.isEmpty = true := by
+      rcases hemp with h | h
+      · left; simp [h]
+      · right; simp [h]
+    simp only [this, if_true]
+  · intro cs hres hr hc hrect hin
+    unfold collectOp
+    rw [hres]
+    have h1 : ¬ (rows.isEmpty = true ∨ cs.isEmpty = true) := by
+      intro h; rcases h with h | h
+      · exact hr (List.isEmpty_iff.mp h)
+      · exact hc (List.isEmpty_iff.mp h)
+    simp only [h1, if_false]
+    obtain ⟨r0, rs, e⟩ := List.exists_cons_of_ne_nil hr
+    have hw0 : ((rows.head?.map List.length).getD 0) = sch.cols.length := by
+      subst e; simp [hrect r0 (by simp)]
+    have h2 : (cs.any fun c => decide (c < 0 ∨ c ≥ (((rows.head?.map List.length).getD 0 : Nat) : Int))) = false := by
+      rw [hw0]
+      apply List.any_eq_false.mpr
+      intro c hcm
+      have := hin c hcm
+      simp only [decide_eq_true_eq]; omega
+    simp only [h2, Bool.false_eq_true, if_false]
+    have hcs := collect_spec rows (cs.map Int.toNat) limit sch.cols.length hrect (by
+      intro c hcm
+      obtain ⟨c', hc', rfl⟩ := List.mem_map.mp hcm
+      have := hin c' hc'; omega)
+    rw [hcs]
+    simp [List.map_map, Function.comp_def]
+  · intro c hres
+    unfold collectOp
+    rw [hres]
+
+/-! ## Round 2 — programs: the lazy-state machine refines the list specification -/
+
+/-- **The laziness table of the source**: every method that needs a list — `slice` (so `head`,
+`tail`), `row`, `__len__`, `rowcount`, `collect`, `to_batches`, `__add__` (both operands) — and
+`__iter__` call `self.materialize()` before they touch `self._rows` (the table is regenerated from
+the source on every run).  This is the only fact about the table the refinement needs. -/
+theorem methods_materialise_first : MatTable := by
+  unfold MatTable; decide
+
+section programs
+variable [DecidableEq α]
+
+theorem step_refines (st : List (IReg α)) (sp : List (SReg α)) (op : Op α) (hs : Sim st sp) (hw : wfOp st op) :
+    ∃ st' sp', implStep st op = some st' ∧ specStep sp op = some sp' ∧ Sim st' sp' := by
+  cases op with
+  | un u s =>
+    obtain ⟨sch, l, rows, h⟩ := hw
+    have h' := hs.frame_of h
+    simp only [implStep, specStep, h, h']
+    cases l with
+    | false => exact ⟨_, _, rfl, rfl, hs.push (rel_ofSpec _ _)⟩
+    | true =>
+      by_cases hm : Gen.Frame.materialisesFirst u.method = true
+      · simp only [hm, if_true, Bool.not_true, Bool.false_eq_true, if_false]
+        exact ⟨_, _, rfl, rfl, (hs.materialise s).push (rel_ofSpec _ _)⟩
+      · have hi : u.iterates = true := by
+          cases hit : u.iterates with
+          | false => exact absurd (method_materialises methods_materialise_first u hit) hm
+          | true => rfl
+        simp only [hm, hi, if_true, Bool.not_true, Bool.false_eq_true, if_false]
+        refine ⟨_, _, rfl, rfl, (hs.setL s .spent ?_).push (rel_ofSpec _ _)⟩
+        intro b hb
+        rw [h'] at hb; cases hb; constructor
+  | add s t =>
+    obtain ⟨⟨sa, la, ra, ha⟩, ⟨sb, lb, rb, hb⟩⟩ := hw
+    have ha' := hs.frame_of ha
+    have hb' := hs.frame_of hb
+    simp only [implStep, specStep, ha, hb, ha', hb', addOp]
+    by_cases he : sa = sb
+    · subst he
+      have m1 : Gen.Frame.materialisesFirst "__add__" = true := methods_materialise_first.2.2.2.2.2.2.2.1
+      have m2 : Gen.Frame.materialisesFirst "__add__.other" = true := methods_materialise_first.2.2.2.2.2.2.2.2
+      simp only [ne_eq, not_true_eq_false, if_false, m1, m2, if_true]
+      obtain ⟨l1, g1, _, _⟩ := materialise_get st s s sa la ra ha
+      obtain ⟨l1', g1', f1, _⟩ := materialise_get st s s sa la ra ha
+      have e1 := f1 rfl
+      subst e1
+      obtain ⟨l2, g2, _, k2⟩ := materialise_get (materialise st s) t s sa false ra g1'
+      have e2 := k2 rfl
+      subst e2
+      obtain ⟨l3, g3, _, _⟩ := materialise_get st s t sa lb rb hb
+      obtain ⟨l4, g4, f4, _⟩ := materialise_get (materialise st s) t t sa l3 rb g3
+      have e4 := f4 rfl
+      subst e4
+      have z1 : isLazy (materialise (materialise st s) t) s = false := isLazy_false_of _ _ _ _ g2
+      have z2 : isLazy (materialise (materialise st s) t) t = false := isLazy_false_of _ _ _ _ g4
+      simp only [z1, z2, Bool.or_self, Bool.false_eq_true, if_false]
+      exact ⟨_, _, rfl, rfl, ((hs.materialise s).materialise t).push (Rel.frame _ _ _)⟩
+    · simp only [ne_eq, he, not_false_eq_true, if_true, if_false]
+      exact ⟨_, _, rfl, rfl, hs.push (Rel.err _)⟩
+  | append s r =>
+    obtain ⟨⟨sch, rows, h, hk⟩, _⟩ := hw
+    have h' := hs.frame_of h
+    simp only [implStep, specStep, h, h', hk, if_false, Bool.false_eq_true]
+    exact ⟨_, _, rfl, rfl, (hs.set2 s (Rel.frame _ _ _)).push (Rel.val _)⟩
+  | iter s =>
+    obtain ⟨sch, l, rows, h⟩ := hw
+    have h' := hs.frame_of h
+    have m1 : Gen.Frame.materialisesFirst "__iter__" = true := methods_materialise_first.2.2.2.2.2.2.1
+    simp only [implStep, specStep, h, h', m1, if_true]
+    exact ⟨_, _, rfl, rfl, (hs.materialise s).push (Rel.iter _ _)⟩
+  | next it k =>
+    obtain ⟨rows, pos, h⟩ := hw
+    have h' := hs.iter_of h
+    simp only [implStep, specStep, h, h']
+    exact ⟨_, _, rfl, rfl, (hs.set2 it (Rel.iter _ _)).push (Rel.val _)⟩
+  | zip s t =>
+    obtain ⟨⟨sa, la, ra, ha⟩, ⟨sb, lb, rb, hb⟩⟩ := hw
+    have ha' := hs.frame_of ha
+    have hb' := hs.frame_of hb
+    have m1 : Gen.Frame.materialisesFirst "__iter__" = true := methods_materialise_first.2.2.2.2.2.2.1
+    simp only [implStep, specStep, ha, hb, ha', hb', m1, if_true]
+    exact ⟨_, _, rfl, rfl, ((hs.materialise s).materialise t).push (Rel.val _)⟩
+
+/-- **Any composition.**  For every well-formed program (any length, any operators, any arguments,
+eager or lazily backed base frame) the state machine of the implementation and the list
+specification both run to the end and every live register of the machine stands for the
+specification's register: same schema, same listing, same value, same error, same iterator. -/
+theorem eval_refines (prog : List (Op α)) (st : List (IReg α)) (sp : List (SReg α))
+    (hs : Sim st sp) (hw : wfProg st prog) :
+    ∃ st' sp', implEval st prog = some st' ∧ specEval sp prog = some sp' ∧ Sim st' sp' := by
+  induction prog generalizing st sp with
+  | nil => exact ⟨st, sp, rfl, rfl, hs⟩
+  | cons op ops ih =>
+    obtain ⟨hw1, hw2⟩ := hw
+    obtain ⟨st1, sp1, e1, e2, hs1⟩ := step_refines st sp op hs hw1
+    obtain ⟨st', sp', e3, e4, hs'⟩ := ih st1 sp1 hs1 (hw2 st1 e1)
+    exact ⟨st', sp', by simp [implEval, e1, e3], by simp [specEval, e2, e4], hs'⟩
+
+/-- The same, read off a program that starts from one base frame: whatever the machine shows of a
+register (`IReg.view`; a spent frame shows nothing) is the list specification's register. -/
+theorem eval_observation (prog : List (Op α)) (sch : Schema) (lazy : Bool) (rows : List (List α))
+    (hw : wfProg [.frame sch lazy rows] prog) :
+    ∃ st' sp', implEval [.frame sch lazy rows] prog = some st' ∧ specEval [.frame sch rows] prog = some sp'
+      ∧ st'.length = sp'.length
+      ∧ ∀ (i : Nat) (r : IReg α) (v : SReg α), st'[i]? = some r → r.view = some v → sp'[i]? = some v := by
+  have h0 : Sim [IReg.frame sch lazy rows] [SReg.frame sch rows] := by
+    refine ⟨rfl, ?_⟩
+    intro i a b ha hb
+    cases i with
+    | zero => simp at ha hb; subst ha; subst hb; constructor
+    | succ i => simp at ha
+  obtain ⟨st', sp', e1, e2, hs⟩ := eval_refines prog _ _ h0 hw
+  refine ⟨st', sp', e1, e2, hs.1, ?_⟩
+  intro i r v hr hv
+  obtain ⟨b, hb, hrel⟩ := hs.get hr
+  cases hrel <;> simp only [IReg.view, Option.some.injEq] at hv <;> first | (subst hv; exact hb) | cases hv
+
+/-- **Never alters a materialised source frame.**  Whatever program runs (well formed or not, as
+long as it runs), a frame that is materialised keeps its schema and its listing, extended only by
+the rows the program `append`s to that very frame, in order. -/
+theorem materialised_source_unaltered (prog : List (Op α)) (st st' : List (IReg α))
+    (h : implEval st prog = some st') (i : Nat) (sch : Schema) (rows : List (List α))
+    (hi : st[i]? = some (.frame sch false rows)) :
+    st'[i]? = some (.frame sch false (rows ++ appended i prog)) :=
+  implEval_materialised prog st st' h i sch rows hi
+
+/-- **Iterating yields each row once, in order** — also when the iteration is abandoned part-way,
+resumed later, or interleaved with other iterators and operators: the chunks handed out by the
+`next` calls on one iterator are consecutive pieces of the listing it was opened on; the iterator
+register keeps that listing and only moves forward, never past the end. -/
+theorem iter_yields_rows_once (prog : List (Op α)) (sp sp' : List (SReg α)) (h : specEval sp prog = some sp')
+    (it : Nat) (rows : List (List α)) (pos : Nat) (hi : sp[it]? = some (.iter rows pos)) :
+    ∃ pos', sp'[it]? = some (.iter rows pos') ∧ pos ≤ pos' ∧ pos' ≤ max pos rows.length
+      ∧ (handed it rows pos prog).1.flatten = (rows.drop pos).take (pos' - pos) := by
+  obtain ⟨h1, h2, h3⟩ := handed_window it rows pos prog
+  exact ⟨_, specEval_iter prog sp sp' h it rows pos hi, h1, h2, h3⟩
+
+/-- A fresh iterator that has been asked for at least as many rows as there are has handed out
+exactly the listing. -/
+theorem iter_drained (it : Nat) (rows : List (List α)) (prog : List (Op α))
+    (hd : rows.length ≤ (handed it rows 0 prog).2) : (handed it rows 0 prog).1.flatten = rows := by
+  obtain ⟨_, _, h3⟩ := handed_window it rows 0 prog
+  rw [h3]
+  simp only [List.drop_zero, Nat.sub_zero]
+  exact List.take_of_length_le hd
+
+/-- Every one-source operator keeps a rectangular frame rectangular (`select`: as wide as the new header). -/
+theorem apply1_rect (u : UnOp α) (sch : Schema) (rows : List (List α)) (h : Rect sch rows) :
+    (apply1 u sch rows).rect := by
+  obtain ⟨p1, p2, p3, p4, p5⟩ := rows_preserved rows
+  cases u with
+  | head k => exact fun r hr => h r (p1 _ _ r hr)
+  | tail k => exact fun r hr => h r (p1 _ _ r hr)
+  | slice o l => exact fun r hr => h r (p1 _ _ r hr)
+  | filter m => exact fun r hr => h r (p2 _ r hr)
+  | take ix => exact fun r hr => h r (p3 _ r hr)
+  | query p => exact fun r hr => h r (p4 _ r hr)
+  | distinct => exact fun r hr => h r (p5 r hr)
+  | select attrs =>
+    rw [select_any_schema]
+    intro r' hr'
+    have hw : ∀ r ∈ rows, r.length = sch.names.length := by
+      intro r hr; rw [h r hr]; simp [Schema.names]
+    obtain ⟨s1, s2, s3⟩ := select_spec sch.names rows attrs hw
+    obtain ⟨k, hk⟩ := List.getElem?_of_mem hr'
+    have hk' : k < rows.length := by
+      have := lt_of_get hk
+      omega
+    obtain ⟨r2, e2, l2, _⟩ := s3 k rows[k] (List.getElem?_eq_getElem hk')
+    rw [hk] at e2; cases e2
+    rw [l2, s1]
+    simp [Schema.ofNames]
+  | batches n => trivial
+  | collect c l => simp only [apply1, collectOp]; repeat' split
+                   all_goals trivial
+  | row i => simp only [apply1, rowOp]; repeat' split
+             all_goals trivial
+  | len how => trivial
+  | hash => trivial
+
+/-- One step of any program keeps every frame register rectangular. -/
+theorem step_rect (sp sp' : List (SReg α)) (op : Op α) (hr : ∀ reg ∈ sp, reg.rect) (ho : opRect sp op)
+    (h : specStep sp op = some sp') : ∀ reg ∈ sp', reg.rect := by
+  have push : ∀ (l : List (SReg α)) (x : SReg α), (∀ reg ∈ l, reg.rect) → x.rect → ∀ reg ∈ l ++ [x], reg.rect := by
+    intro l x hl hx reg hm
+    rcases List.mem_append.mp hm with hm | hm
+    · exact hl reg hm
+    · simp only [List.mem_singleton] at hm; subst hm; exact hx
+  have setr : ∀ (s : Nat) (x : SReg α), x.rect → ∀ reg ∈ sp.set s x, reg.rect := by
+    intro s x hx reg hm
+    rcases List.mem_or_eq_of_mem_set hm with hm | hm
+    · exact hr reg hm
+    · subst hm; exact hx
+  cases op with
+  | un u s =>
+    simp only [specStep] at h
+    split at h
+    · rename_i sch rows hs
+      cases h
+      exact push _ _ hr (apply1_rect u sch rows (hr _ (List.mem_of_getElem? hs)))
+    · cases h
+  | add s t =>
+    simp only [specStep] at h
+    split at h
+    · rename_i sa ra sb rb hs ht
+      cases h
+      apply push _ _ hr
+      unfold addOp
+      split
+      · rename_i e
+        subst e
+        intro r hm
+        rcases List.mem_append.mp hm with hm | hm
+        · exact hr _ (List.mem_of_getElem? hs) r hm
+        · exact hr _ (List.mem_of_getElem? ht) r hm
+      · trivial
+    · cases h
+  | append s r =>
+    simp only [specStep] at h
+    split at h
+    · rename_i sch rows hs
+      split at h
+      · cases h
+      · cases h
+        refine push _ (.val .none) ?_ trivial
+        apply setr
+        intro r' hm
+        rcases List.mem_append.mp hm with hm | hm
+        · exact hr _ (List.mem_of_getElem? hs) r' hm
+        · simp only [List.mem_singleton] at hm; subst hm; exact ho sch rows hs
+    · cases h
+  | iter s =>
+    simp only [specStep] at h
+    split at h
+    · cases h; exact push _ _ hr trivial
+    · cases h
+  | next it k =>
+    simp only [specStep] at h
+    split at h
+    · rename_i rows2 pos2 hs
+      cases h; exact push _ (.val _) (setr _ (.iter rows2 _) trivial) trivial
+    · cases h
+  | zip s t =>
+    simp only [specStep] at h
+    split at h
+    · cases h; exact push _ _ hr trivial
+    · cases h
+
+/-- **Rectangularity is an invariant of every program**: if the base frames are rectangular and
+`append` is given rows of the right width, every frame any program produces is rectangular (its
+rows are as wide as its schema) — `select` included, whose schema is the new header. -/
+theorem eval_rect (prog : List (Op α)) (sp sp' : List (SReg α)) (hr : ∀ reg ∈ sp, reg.rect)
+    (ho : progRect sp prog) (h : specEval sp prog = some sp') : ∀ reg ∈ sp', reg.rect := by
+  induction prog generalizing sp with
+  | nil => simp only [specEval, Option.some.injEq] at h; subst h; exact hr
+  | cons op ops ih =>
+    simp only [specEval] at h
+    cases h1 : specStep sp op with
+    | none => rw [h1] at h; cases h
+    | some sp1 =>
+      rw [h1] at h
+      exact ih sp1 (step_rect sp sp1 op hr ho.1 h1) (ho.2 sp1 h1) h
+
+/-- The executable well-formedness check the driver reports for every tested program is sound. -/
+theorem wfProgB_sound (prog : List (Op α)) (st : List (IReg α)) (h : wfProgB st prog = true) : wfProg st prog :=
+  wfProgB_sound' prog st h
+
+end programs
+
+/-- Non-vacuity of the program theorems: a lazily backed frame, an iteration abandoned after one row,
+another operator on the same frame, the iteration resumed, a lazily backed result read twice. -/
+example : wfProg (α := Nat) [.frame ⟨.typed, [⟨"a", ["x"]⟩, ⟨"b", []⟩]⟩ true [[1, 5], [2, 6], [3, 7]]]
+    [.iter 0, .next 1 1, .un (.filter [true, false, true]) 0, .next 1 5, .un (.select ["b", "x", "a"]) 3,
+     .un (.len 0) 5, .add 0 0, .zip 5 0] :=
+  wfProgB_sound _ _ (by decide)
+example : handed (α := Nat) 1 [[1], [2], [3]] 0 [.iter 0, .next 1 1, .un (.head 1) 0, .next 1 5, .next 2 1]
+    = ([[[1]], [[2], [3]]], 3) := by decide
+example : (specEval (α := Nat) [.frame ⟨.list, [⟨"a", []⟩, ⟨"b", []⟩]⟩ [[1, 2], [3, 4]]]
+    [.un (.select ["b"]) 0, .append 0 [5, 6], .un (.collect [.name "b", .idx 0] (some 1)) 0]).isSome = true := by decide
+example : appended (α := Nat) 0 [.append 0 [9], .un .distinct 0, .append 1 [8], .append 0 [7]] = [[9], [7]] := by decide
 
 /-- Non-vacuity: concrete frames exercising the clamp, reordering select, colliding rows. -/
 example : tail [1, 2, 3] 5 = [1, 2, 3] ∧ tail [1, 2, 3] 2 = [2, 3] ∧ slice [1, 2, 3] (-2) (some 1) = [2] := by decide
